@@ -599,21 +599,40 @@ fn histories(fx: &Fixture, tier: Tier, st: &mut Stats) {
         match spec.build(&fx.scratch.path.join("app_inject")) {
             Err(e) => st.violation("harness", "app_build", 0, || e.clone(), case),
             Ok(app2) => {
-                let path = fx.scratch.path.join("plugin_failure.txt");
-                let _ = std::fs::remove_file(&path);
-                let cfg = json!({"response_output_policy": {"type": "file", "filename": path.to_str().unwrap(), "format": {"type": "json", "newline_delimited": true}}});
-                let qs = vec![tagq(&json!({"origin_vertex": 0, "destination_vertex": 4}), "ok"), tagq(&json!({"origin_vertex": 0, "destination_vertex": 4, "weight_factor": 2.0}), "plugin_fails")];
-                match guarded(|| app2.run(qs.clone(), Some(&cfg))) {
-                    Ok(Ok(resp)) => {
-                        let text = std::fs::read_to_string(&path).unwrap_or_default();
-                        let n = text.split('\n').filter(|l| !l.is_empty()).count();
-                        if n == resp.len() {
-                            st.pass("input_plugin_failures_are_written");
-                        } else {
-                            st.violation("append_histories.input_plugin_failure", "one_record_per_response", 0, || format!("{} responses returned, {} records in the file: {:?}", resp.len(), n, text), case);
+                // every batch of length 1..3 over {answered query, query failing in the input plugin} x persistence x format:
+                // in particular batches in which nothing reaches the search
+                let mk = |fails: bool, id: &str| if fails { tagq(&json!({"origin_vertex": 0, "destination_vertex": 4, "weight_factor": 2.0}), id) } else { tagq(&json!({"origin_vertex": 0, "destination_vertex": 4}), id) };
+                for len in 1..=3usize {
+                    for code in 0..(1usize << len) {
+                        for persist in ["persist_response_in_memory", "discard_response_from_memory"] {
+                            for (fname, format) in [("jsonl", json!({"type": "json", "newline_delimited": true})), ("csv", csv_format())] {
+                                st.states += 1;
+                                st.evaluations += 1;
+                                st.transitions += 1;
+                                st.traces += 1;
+                                let path = fx.scratch.path.join("plugin_failure.txt");
+                                let _ = std::fs::remove_file(&path);
+                                let cfg = json!({"response_persistence_policy": persist, "response_output_policy": {"type": "file", "filename": path.to_str().unwrap(), "format": format}});
+                                let qs: Vec<Value> = (0..len).map(|i| mk(code >> i & 1 == 1, &format!("q{}", i))).collect();
+                                let pattern: String = (0..len).map(|i| if code >> i & 1 == 1 { 'F' } else { 'A' }).collect();
+                                let case = || json!({"input_plugin_failure": true, "batch": pattern, "persistence": persist, "format": fname});
+                                let comp = format!("append_histories.input_plugin_failure.{}", if code == (1 << len) - 1 { "nothing_reaches_the_search" } else { "mixed_batch" });
+                                match guarded(|| app2.run(qs.clone(), Some(&cfg))) {
+                                    Ok(Ok(resp)) => {
+                                        let text = std::fs::read_to_string(&path).unwrap_or_default();
+                                        let n = text.split('\n').filter(|l| !l.is_empty()).count() - (fname == "csv") as usize;
+                                        let keep = persist.starts_with("persist");
+                                        if n == len && (!keep || resp.len() == len) {
+                                            st.pass("input_plugin_failures_are_written");
+                                        } else {
+                                            st.violation(&comp, "one_record_per_response", len as u64, || format!("batch {} ({}): {} responses returned, {} records in the file: {:?}", pattern, persist, resp.len(), n, text), case);
+                                        }
+                                    }
+                                    other => st.violation(&comp, "run_succeeds", len as u64, || format!("{:?}", other), case),
+                                }
+                            }
                         }
                     }
-                    other => st.violation("append_histories.input_plugin_failure", "run_succeeds", 0, || format!("{:?}", other), case),
                 }
             }
         }
